@@ -8,7 +8,12 @@ namespace Pool
 def dropWaiter (p : Pool) (m : Nat) : Pool :=
   { p with sem := { p.sem with waiters := (removeWaiterL m p.sem.waiters).2 } }
 
-theorem roomGranted_good {cap : Nat} (p : Pool) (m : Nat) (r : Req) (hph : PhaseOK p) (v : Nat)
+theorem wakeNext_regs (p : Pool) :
+    let q := (({ p with sem := p.sem.wakeNext.1 } : Pool).schedOpt p.sem.wakeNext.2)
+    q.running = p.running ∧ q.cancelledR = p.cancelledR ∧ q.ended = p.ended ∧ q.lost = p.lost := by
+  simp
+
+theorem roomGranted_good {cap : Nat} (p : Pool) (m : Nat) (r : Req) (hph : PhaseOK p) (hreg : RegOK p) (v : Nat)
     (hv : p.sem.value = .fin v) (hs : v + (heldL p.tasks + 1) + grantsL p.sem.waiters = cap) :
     Good cap (p.roomGranted m r) := by
   unfold roomGranted
@@ -21,13 +26,14 @@ theorem roomGranted_good {cap : Nat} (p : Pool) (m : Nat) (r : Req) (hph : Phase
       · rw [hv] at hz; simp [Cap.isZero] at hz
       · exact h
     obtain ⟨v', h1, h2, h3⟩ := wakeNext_effect p v hv hpos
-    refine good_createTask_afterTake _ m _ ?_ v' h1 ?_
+    obtain ⟨r1, r2, r3, r4⟩ := wakeNext_regs p
+    refine good_createTask_afterTake _ m _ ?_ (hreg.of_eq h3 r1 r2 r3 r4) v' h1 ?_
     · intro i tk h hn; rw [h3] at h; exact hph i tk h hn
     · rw [h3]; omega
-  · exact good_createTask_afterTake p m _ hph v hv hs
+  · exact good_createTask_afterTake p m _ hph hreg v hv hs
 
 theorem roomWaitCancelled_good {cap : Nat} (p : Pool) (m : Nat) (r : Req) (st : Option WaitSt) (hph : PhaseOK p)
-    (v : Nat) (hv : p.sem.value = .fin v)
+    (hreg : RegOK p) (v : Nat) (hv : p.sem.value = .fin v)
     (hs : v + heldL p.tasks + (grantsL p.sem.waiters + (if st = some .granted then 1 else 0)) = cap) :
     Good cap (p.roomWaitCancelled m r st) := by
   unfold roomWaitCancelled
@@ -37,12 +43,13 @@ theorem roomWaitCancelled_good {cap : Nat} (p : Pool) (m : Nat) (r : Req) (st : 
     · rename_i h
       have hst : st = some .granted := by simpa using h
       obtain ⟨v', h1, h2, h3⟩ := releasePool_effect p v hv
-      refine ⟨⟨v', h1, ?_⟩, ?_⟩
+      obtain ⟨r1, r2, r3, r4⟩ := releasePool_regs p
+      refine ⟨⟨v', h1, ?_⟩, ?_, hreg.of_eq h3 r1 r2 r3 r4⟩
       · rw [h3]; simp [hst] at hs; omega
       · intro i tk h hn; rw [h3] at h; exact hph i tk h hn
     · rename_i h
       have hst : ¬ st = some .granted := by simpa using h
-      exact ⟨⟨v, hv, by simp [hst] at hs; omega⟩, hph⟩
+      exact ⟨⟨v, hv, by simp [hst] at hs; omega⟩, hph, hreg⟩
   refine (tame_finishMeta _ m _).good ?_
   split
   · exact (tame_releaseMap _ m).good key
@@ -56,15 +63,17 @@ theorem good_wakeWaitRoom {cap : Nat} (p : Pool) (m : Nat) (r : Req) (hg : Good 
   -- the pool after the waiter was removed and `mustCancel` cleared
   have hph : PhaseOK (({ p with sem := { p.sem with waiters := (removeWaiterL m p.sem.waiters).2 } } : Pool).modReq m
       fun x => { x with mustCancel := false }) := fun i tk h hn => hg.phase i tk h hn
+  have hreg : RegOK (({ p with sem := { p.sem with waiters := (removeWaiterL m p.sem.waiters).2 } } : Pool).modReq m
+      fun x => { x with mustCancel := false }) := hg.reg.of_eq rfl rfl rfl rfl rfl
   split
-  · exact roomWaitCancelled_good _ m r _ hph v hv (by simp only [modReq_sem, modReq_tasks]; omega)
+  · exact roomWaitCancelled_good _ m r _ hph hreg v hv (by simp only [modReq_sem, modReq_tasks]; omega)
   · split
     · rename_i hgr
       have hst : (removeWaiterL m p.sem.waiters).1 = some .granted := by simpa using hgr
-      exact roomGranted_good _ m r hph v hv (by simp only [modReq_sem, modReq_tasks]; simp [hst] at hrm; omega)
+      exact roomGranted_good _ m r hph hreg v hv (by simp only [modReq_sem, modReq_tasks]; simp [hst] at hrm; omega)
     · rename_i hc hgr
       have hst : ¬ (removeWaiterL m p.sem.waiters).1 = some .granted := by simpa using hgr
-      exact ⟨⟨v, hv, by simp only [modReq_sem, modReq_tasks]; simp [hst] at hrm; omega⟩, hph⟩
+      exact ⟨⟨v, hv, by simp only [modReq_sem, modReq_tasks]; simp [hst] at hrm; omega⟩, hph, hreg⟩
 
 theorem good_mapSemGranted {cap : Nat} (p : Pool) (m : Nat) (r : Req) (hg : Good cap p) : Good cap (p.mapSemGranted m r) := by
   unfold mapSemGranted
@@ -140,71 +149,64 @@ theorem tame_gatherStart (p : Pool) (cs re owner n) : Tame p (p.gatherStart cs r
 
 theorem tame_finishApi (p : Pool) (a o) : Tame p (p.finishApi a o) := tame_modApi p a _
 
-theorem tame_flushAfter2 (p : Pool) (a o) : Tame p (p.flushAfter2 a o) := by
+theorem good_flushAfter2 {cap : Nat} (p : Pool) (a o) (hg : Good cap p) : Good cap (p.flushAfter2 a o) := by
   unfold flushAfter2
   split
   · simp only
-    refine Tame.trans ?_ (tame_finishApi _ a _)
-    exact tame_of_eq _ _ rfl rfl
-  · exact tame_finishApi p a _
+    refine (tame_finishApi _ a _).good ?_
+    refine ⟨hg.slot, hg.phase, ?_⟩
+    exact hg.reg.flushForget _ _ _ rfl rfl rfl rfl (by simp)
+  · exact (tame_finishApi p a _).good hg
 
-theorem tame_flushAfter1 (p : Pool) (a re o) : Tame p (p.flushAfter1 a re o) := by
+theorem good_flushAfter1 {cap : Nat} (p : Pool) (a re o) (hg : Good cap p) : Good cap (p.flushAfter1 a re o) := by
   unfold flushAfter1
   split
-  · exact tame_finishApi p a _
+  · exact (tame_finishApi p a _).good hg
   · simp only
+    have h1 : Tame p ({ p with metaCancelled := [], reqs := p.reqs.map fun (r : Req) => { r with inCancelled := false } } : Pool) :=
+      tame_of_eq _ _ rfl rfl
     split
-    · refine Tame.trans ?_ (tame_flushAfter2 _ a _)
-      refine Tame.trans ?_ (tame_gatherStart _ _ _ _ _)
-      refine Tame.trans ?_ (tame_modApi _ a _)
-      exact tame_of_eq _ _ rfl rfl
-    · refine Tame.trans ?_ (tame_modApi _ a _)
-      refine Tame.trans ?_ (tame_gatherStart _ _ _ _ _)
-      refine Tame.trans ?_ (tame_modApi _ a _)
-      exact tame_of_eq _ _ rfl rfl
+    · refine good_flushAfter2 _ a _ ?_
+      refine Tame.good (Tame.trans (Tame.trans h1 (tame_modApi _ a _)) (tame_gatherStart _ _ _ _ _)) hg
+    · refine Tame.good ?_ hg
+      exact Tame.trans (Tame.trans (Tame.trans h1 (tame_modApi _ a _)) (tame_gatherStart _ _ _ _ _)) (tame_modApi _ a _)
 
-theorem tame_flushStage1 (p : Pool) (a re) : Tame p (p.flushStage1 a re) := by
+theorem good_flushStage1 {cap : Nat} (p : Pool) (a re) (hg : Good cap p) : Good cap (p.flushStage1 a re) := by
   unfold flushStage1
   simp only
+  have h1 : Tame p ({ p with reqs := p.reqs.map fun (r : Req) => if r.inRunning && r.outcome.isSome then { r with inRunning := false } else r } : Pool) :=
+    tame_of_eq _ _ rfl rfl
   split
-  · refine Tame.trans ?_ (tame_flushAfter1 _ a re _)
-    refine Tame.trans ?_ (tame_gatherStart _ _ _ _ _)
-    exact tame_of_eq _ _ rfl rfl
-  · refine Tame.trans ?_ (tame_modApi _ a _)
-    refine Tame.trans ?_ (tame_gatherStart _ _ _ _ _)
-    exact tame_of_eq _ _ rfl rfl
+  · exact good_flushAfter1 _ a re _ ((Tame.trans h1 (tame_gatherStart _ _ _ _ _)).good hg)
+  · exact (Tame.trans (Tame.trans h1 (tame_gatherStart _ _ _ _ _)) (tame_modApi _ a _)).good hg
 
-theorem tame_gacAfter2 (p : Pool) (a o) : Tame p (p.gacAfter2 a o) := by
+theorem good_gacAfter2 {cap : Nat} (p : Pool) (a o) (hg : Good cap p) : Good cap (p.gacAfter2 a o) := by
   unfold gacAfter2
   split
   · simp only
-    refine Tame.trans ?_ (tame_finishApi _ a _)
-    refine Tame.trans ?_ (tame_foldl _ _ (fun p w => tame_schedApi p w) _)
-    exact tame_of_eq _ _ rfl rfl
-  · exact tame_finishApi p a _
+    refine (tame_finishApi _ a _).good ?_
+    refine (tame_foldl _ _ (fun p w => tame_schedApi p w) _).good ?_
+    exact ⟨hg.slot, hg.phase, hg.reg.gacClear _ rfl rfl rfl rfl rfl⟩
+  · exact (tame_finishApi p a _).good hg
 
-theorem tame_gacAfter1 (p : Pool) (a re g) : Tame p (p.gacAfter1 a re g) := by
+theorem good_gacAfter1 {cap : Nat} (p : Pool) (a re g) (hg : Good cap p) : Good cap (p.gacAfter1 a re g) := by
   unfold gacAfter1
   simp only
   split
-  · exact tame_finishApi p a _
-  · split
-    · refine Tame.trans ?_ (tame_gacAfter2 _ a _)
-      refine Tame.trans ?_ (tame_gatherStart _ _ _ _ _)
-      exact tame_of_eq _ _ rfl rfl
-    · refine Tame.trans ?_ (tame_modApi _ a _)
-      refine Tame.trans ?_ (tame_gatherStart _ _ _ _ _)
-      exact tame_of_eq _ _ rfl rfl
+  · exact (tame_finishApi p a _).good hg
+  · have h1 : Tame p ({ p with metaCancelled := [], reqs := p.reqs.map fun (r : Req) => { r with inCancelled := false, inRunning := false } } : Pool) :=
+      tame_of_eq _ _ rfl rfl
+    split
+    · exact good_gacAfter2 _ a _ ((Tame.trans h1 (tame_gatherStart _ _ _ _ _)).good hg)
+    · exact (Tame.trans (Tame.trans h1 (tame_gatherStart _ _ _ _ _)) (tame_modApi _ a _)).good hg
 
-theorem tame_gacStage1 (p : Pool) (a re) : Tame p (p.gacStage1 a re) := by
+theorem good_gacStage1 {cap : Nat} (p : Pool) (a re) (hg : Good cap p) : Good cap (p.gacStage1 a re) := by
   unfold gacStage1
   simp only
   split
-  · refine Tame.trans ?_ (tame_gacAfter1 _ a re _)
-    refine Tame.trans ?_ (tame_gatherStart _ _ _ _ _)
+  · refine good_gacAfter1 _ a re _ (Tame.good (Tame.trans ?_ (tame_gatherStart _ _ _ _ _)) hg)
     exact tame_of_eq _ _ rfl rfl
-  · refine Tame.trans ?_ (tame_modApi _ a _)
-    refine Tame.trans ?_ (tame_gatherStart _ _ _ _ _)
+  · refine Tame.good (Tame.trans (Tame.trans ?_ (tame_gatherStart _ _ _ _ _)) (tame_modApi _ a _)) hg
     exact tame_of_eq _ _ rfl rfl
 
 theorem tame_untilClosedStart (p : Pool) (a) : Tame p (p.untilClosedStart a) := by
@@ -214,25 +216,25 @@ theorem tame_untilClosedStart (p : Pool) (a) : Tame p (p.untilClosedStart a) := 
   · refine Tame.trans ?_ (tame_modApi _ a _)
     exact tame_of_eq _ _ rfl rfl
 
-theorem tame_stepApi (p : Pool) (a) : Tame p (p.stepApi a) := by
+theorem good_stepApi {cap : Nat} (p : Pool) (a) (hg : Good cap p) : Good cap (p.stepApi a) := by
   unfold stepApi
   split
-  · exact Tame.refl p
+  · exact hg
   · split
-    · exact Tame.refl p
+    · exact hg
     · simp only
-      have h0 : Tame p (p.modApi a fun x => { x with sched := false }) := tame_modApi p a _
-      repeat' (first | exact h0 | exact h0.trans (tame_flushStage1 _ _ _) | exact h0.trans (tame_gacStage1 _ _ _)
-                     | exact h0.trans (tame_untilClosedStart _ _) | exact h0.trans (tame_finishApi _ _ _)
-                     | exact h0.trans (tame_flushAfter1 _ _ _ _) | exact h0.trans (tame_gacAfter1 _ _ _ _)
-                     | exact h0.trans (tame_flushAfter2 _ _ _) | exact h0.trans (tame_gacAfter2 _ _ _) | split)
+      have hg0 : Good cap (p.modApi a fun x => { x with sched := false }) := (tame_modApi p a _).good hg
+      repeat' (first | exact hg0 | exact good_flushStage1 _ _ _ hg0 | exact good_gacStage1 _ _ _ hg0
+                     | exact (tame_untilClosedStart _ _).good hg0 | exact (tame_finishApi _ _ _).good hg0
+                     | exact good_flushAfter1 _ _ _ _ hg0 | exact good_gacAfter1 _ _ _ _ hg0
+                     | exact good_flushAfter2 _ _ _ hg0 | exact good_gacAfter2 _ _ _ hg0 | split)
 
 /-- running any handle preserves `Good` -/
 theorem good_runRef {cap : Nat} (p : Pool) (r : Ref) (hg : Good cap p) : Good cap (p.runRef r) := by
   cases r with
   | task t => exact good_stepTask p t hg
   | spawner m => exact good_stepMeta p m hg
-  | api a => exact (tame_stepApi p a).good hg
+  | api a => exact good_stepApi p a hg
   | gchild g i => exact (tame_gatherChildDone p g i true).good hg
 
 theorem tame_addApi (p : Pool) (k) : Tame p (p.addApi k) := tame_of_eq _ _ rfl rfl
